@@ -53,4 +53,5 @@ def jobs(tier):
             mk('C09', 'x2/other_running', S.two_bus_await('other_running', ('B', 'A')), witnesses=W, max_paths=6000),
         ]
     out += matrix_jobs('C09', 'm1', tier)
+    out += matrix_jobs('C09', 'm3', tier)
     return flat(out)
